@@ -151,7 +151,17 @@ func checkMain(args []string) int {
 			u.Obls = keep
 		}
 	}
+	buildS := time.Since(start).Seconds()
+	ro.Known = map[string]bool{}
+	for _, k := range loadKnown() {
+		if k.Kind == "known" && k.Property == id {
+			ro.Known[k.Obligation] = true
+		}
+	}
 	results := runObligations(units, ro)
+	if os.Getenv("GOVC_TIMES") != "" {
+		fmt.Fprintf(os.Stderr, "build %.1fs, discharge %.1fs (query generation, summed over goroutines: %.1fs)\n", buildS, time.Since(start).Seconds()-buildS, float64(emitNanos)/1e9)
+	}
 
 	known := loadKnown()
 	lock := loadLock()
